@@ -308,8 +308,16 @@ func (s *scriptRT) respondAt(c Call, ph string, item int, t0 int64) (Resp, int) 
 		s.cancel()
 	}
 	s.trace = append(s.trace, Event{Call: c, Resp: r, T0: t0})
+	if len(s.trace) == runawayEvents && s.cancel != nil {
+		// no scenario makes this many callbacks (the model's fuel allows a few hundred): the run
+		// has gone astray (e.g. a flow that never ends); stop it through the context
+		s.cancel()
+	}
 	return r, len(s.trace) - 1
 }
+
+// a run with more callbacks than this is reported as not terminating, with its trace cut
+const runawayEvents = 4000
 
 func (s *scriptRT) setEnd(idx int, t1 int64) {
 	s.mu.Lock()
@@ -366,6 +374,9 @@ func (h *hnode) noteItems(v *Val) {
 
 func (h *hnode) prep(shared *flyt.SharedStore) Resp {
 	st := h.rt.w.encode(shared)
+	if shared == h.rt.w.store {
+		h.rt.w.noteCallback(shared)
+	}
 	r := h.rt.respond(Call{K: "prep", N: h.id, St: &st}, "prep", 0)
 	if h.gated {
 		if r.K == "ok" {
@@ -407,12 +418,18 @@ func (h *hnode) fallback(arg any, err error) Resp {
 }
 func (h *hnode) post(shared *flyt.SharedStore, p, x any) Resp {
 	st := h.rt.w.encode(shared)
+	if shared == h.rt.w.store {
+		h.rt.w.noteCallback(shared)
+	}
 	pv := h.rt.w.encode(p)
 	xv := h.rt.w.encode(x)
 	return h.rt.respond(Call{K: "post", N: h.id, St: &st, P: &pv, X: &xv}, "post", 0)
 }
 func (h *hnode) bpost(shared *flyt.SharedStore, items, results []flyt.Result) Resp {
 	st := h.rt.w.encode(shared)
+	if shared == h.rt.w.store {
+		h.rt.w.noteCallback(shared)
+	}
 	return h.rt.respond(Call{K: "bpost", N: h.id, St: &st,
 		Items: h.rt.w.encodeList(items), Results: h.rt.w.encodeList(results)}, "post", 0)
 }
@@ -818,6 +835,10 @@ func runEngine(sc EScen) (obs EObs) {
 			r.Timeout = true
 		}
 		r.Trace = rt.takeTrace()
+		if len(r.Trace) >= runawayEvents {
+			r.Trace = r.Trace[:runawayEvents]
+			r.Timeout = true
+		}
 		rt.mu.Lock()
 		r.CancelAt = rt.cancelAt
 		rt.mu.Unlock()
